@@ -20,9 +20,9 @@ PROP = dict(
                "of the operation - topic matching, flow control and expiry arithmetic are other properties' models; the "
                "theorem quantifies over every such outcome.  Not covered: counters restored from a persistent store at "
                "start-up (loadServerInfo takes the stored values: C20-C22), the inline client, will messages.",
-    engines=[dict(hx="stats")],
-    theorems=["C38_counters", "C38_every_quiescent_point", "C38_step"],
-    model_files="coq/Session/Stats.v",
+    engines=[dict(hx="stats"), dict(hx="limit", model="statslimit")],
+    theorems=["C38_counters", "C38_every_quiescent_point", "C38_step", "C38_connected_under_schedules"],
+    model_files="coq/Session/Stats.v coq/Session/StatsLimit.v (over coq/Conc/Limit.v)",
     rule="200 (thorough 6000) histories of 36 (60) steps over client ids {a,b,c}: CONNECT (v3/4/5, clean 0/1, session "
          "expiry property, refused connect, takeover of connected and of parked sessions), SUBSCRIBE 1-2 filters incl. "
          "re-subscription, $share / $SHARE variants of one group, invalid and $SYS filters, UNSUBSCRIBE incl. absent "
@@ -31,7 +31,11 @@ PROP = dict(
          "codes 0x80/0x92/0x10; DISCONNECT / network close; housekeeping clients / retained / inflight / $SYS at "
          "now+{0,3,7,12,200}; configurations: pending-writes queue 1, receive maximum 1-2 (deferral), server receive "
          "maximum 2, maximum message expiry 10, maximum session expiry 5.  Counters compared after every step.  "
-         "non-trivial = history of >= 5 steps; distinct = distinct history lines",
+         "non-trivial = history of >= 5 steps; distinct = distinct history lines.  Second stream: the forced schedules "
+         "of the C35 engine `limit` (every interleaving of the 3 atomic steps of 3 concurrent attach attempts at "
+         "limits 1 and 2, with and without takeover, plus random schedules), read by the C38 monitor `statslimit`: "
+         "after every schedule entry at which no teardown is pending, Info.ClientsConnected = connections holding a "
+         "success CONNACK and still open (also after the winners have left)",
     modelled="server.go attachClient/inheritClientSession/processPublish/publishToClient (in-flight bookkeeping)/"
              "processPuback/Pubrec/Pubrel/Pubcomp/processSubscribe/processUnsubscribe/UnsubscribeClient/retainMessage/"
              "publishSysTopics/clearExpiredClients/clearExpiredRetainedMessages/clearExpiredInflights, processPacket's "
